@@ -285,6 +285,8 @@ def unwrap_for(alg, enc, ek, key, header, sender_pub=None, tag=None):
                 raise RefReject("dir key size")
             return key
         if alg.startswith("RSA"):
+            if len(ek) != (key.key_size + 7) // 8:      # RFC 8017 7.1.2 / 7.2.2 step 1, checked here and not left to the backend
+                raise RefReject("unwrap:encrypted key is not as long as the modulus")
             return key.decrypt(ek, rsa_pad(alg))
         if alg in KW_BITS:
             if len(key) * 8 != KW_BITS[alg]:
